@@ -194,7 +194,8 @@ func TestC14(t *testing.T) {
 			}
 			e := gen(rapid.IntRange(1, 4).Draw(rt, "depth"))
 			b.WriteString(P + " " + e + ";\n" + P + " \"end\";\n")
-			c.c14Program(s, "rand-nested", b.String(), np, false, "ctx-random")
+			pl := drawPlacement(rt)
+			c.c14Program(s, "rand-nested", place(b.String(), pl), np, false, "ctx-random", "placed-"+placementNames[pl])
 		})
 	})
 }
